@@ -15,7 +15,7 @@
 from amaranth import *
 from ..harness import Harness
 from ..engine import Query
-from ..lib.host import SlottedHost, TxSpy, KIND_NONE, KIND_SETUP, KIND_IN, KIND_OUT, KIND_SOF, KIND_HSK
+from ..lib.host import SlottedHost, TxSpy, slot_cubes, KIND_NONE, KIND_SETUP, KIND_IN, KIND_OUT, KIND_SOF, KIND_HSK
 from ..lib.device import tie_device
 
 PROP = "C57"
@@ -260,7 +260,22 @@ def queries(tier):
         "tx_packet": dict(z, s0_kind=KIND_IN, s0_ep=4, s0_flag=1),
         "tx_second_packet": dict(z, s0_kind=KIND_IN, s0_ep=4, s0_flag=1, s1_kind=KIND_IN, s1_ep=4, s1_flag=1),
     }
-    qs.append(Query(f"bmc_{n}slots", f, SLOT * n + 12, timeout=3000, hints=hints, split=True,
-                    desc=f"{n} symbolic transactions against the whole serial device"))
+    for hd in hints.values():
+        for i in range(3):
+            hd.setdefault(f"s{i}_kind", KIND_NONE)
+            hd.setdefault(f"s{i}_flag", 0)
+            hd.setdefault(f"s{i}_ep", 0)
+            hd.setdefault(f"s{i}_olen", 0)
+            hd.setdefault(f"s{i}_dpid", 0)
+    qs.append(Query("covers_3slots", f, SLOT * n + 12, asserts=[], hints=hints, timeout=900, split=False,
+                    covers=list(hints), desc="witnesses: descriptor read, SET_LINE_CODING, stalls, bytes both ways"))
+    # one solver process per cube of per-slot (kind, flag, DATA PID) choices; endpoint, data, payload length symbolic
+    if tier == "quick":
+        cubes = list(slot_cubes(3, "SIPQ", first="SQ")) + list(slot_cubes(3, "Ii", first="I"))
+    else:
+        cubes = list(slot_cubes(3, "SsIiPQoN"))
+    for name, layer in cubes:
+        qs.append(Query(f"bmc_3slots_{name}", f, SLOT * n + 12, layer=layer, covers=[], timeout=900, split=False,
+                        desc=f"3 transactions {name} against the whole serial device"))
     qs.append(Query("cosim_device", f, 0, kind="cosim", cosim_cycles=120 if tier == "quick" else 400))
     return qs
